@@ -278,7 +278,7 @@ impl World {
         let mut i = self.cfg.first_fd.max(0) as usize;
         loop {
             if i >= self.fds.len() {
-                self.fds.push(None);
+                self.fds.resize(i + 1, None);
             }
             if self.fds[i].is_none() {
                 self.fds[i] = Some(obj);
